@@ -203,6 +203,10 @@ class World:
         elif shape == "many":                           # five outputs summing to the bound
             q = value // 5
             cb_outs = [(q, KEYS[(op.get("miner", 0) + j) % len(KEYS)].pub) for j in range(4)] + [(value - 4 * q, miner)]
+        elif shape == "wrap":
+            # two outputs whose values add up to the allowed amount only modulo 2^64 (one of them has the top bit set)
+            x = rw.get("x", 1)
+            cb_outs = [((1 << 64) - x, miner), (value + x, KEYS[(op.get("miner", 0) + 1) % len(KEYS)].pub)]
         elif shape == "none":
             cb_outs = []
         elif shape == "less":
